@@ -314,6 +314,166 @@ pub fn run_one(c: &Cfg15, cx: &mut Choices, obs: &mut Obs15) -> Result<(), Strin
     Ok(())
 }
 
+// ---- large windows: boundary values of `w` (around every power of two up to 2^17) ------------
+// One execution per (w, variant): n = w + 3 tasks, task 0 waits for task w-1 (the last task of the
+// first window). Oracle: after the first poll exactly min(w, n) tasks were taken from the source
+// and every one of them was polled; completing task w-1 alone lets task 0 (and only it) come out;
+// completing the rest yields 0..n in order. Cost O(n) per run.
+struct LShared {
+    fired: Vec<bool>,
+    polled: Vec<bool>,
+    resolved: Vec<bool>,
+    wakers: Vec<Option<Waker>>,
+    created: usize,
+    dep0: Option<usize>,
+}
+
+struct LGate {
+    i: usize,
+    sh: Arc<Mutex<LShared>>,
+}
+
+impl Future for LGate {
+    type Output = Result<usize, usize>;
+    fn poll(self: Pin<&mut Self>, cx: &mut Context<'_>) -> Poll<Self::Output> {
+        let mut s = self.sh.lock().unwrap();
+        let i = self.i;
+        s.polled[i] = true;
+        let ready = match (i, s.dep0) {
+            (0, Some(j)) => s.resolved[j],
+            _ => s.fired[i],
+        };
+        if ready {
+            s.resolved[i] = true;
+            if s.dep0 == Some(i) {
+                if let Some(w) = s.wakers[0].take() {
+                    w.wake();
+                }
+            }
+            Poll::Ready(Ok(i))
+        } else {
+            s.wakers[i] = Some(cx.waker().clone());
+            Poll::Pending
+        }
+    }
+}
+
+pub fn large_window(w: usize, variant: Variant) -> Result<(), String> {
+    let n = w + 3;
+    let dep0 = (w >= 2).then_some(w - 1);
+    let sh = Arc::new(Mutex::new(LShared {
+        fired: vec![false; n],
+        polled: vec![false; n],
+        resolved: vec![false; n],
+        wakers: (0..n).map(|_| None).collect(),
+        created: 0,
+        dep0,
+    }));
+    let out: Arc<Mutex<Vec<usize>>> = Arc::new(Mutex::new(Vec::new()));
+    let done = Arc::new(Mutex::new(false));
+    let shi = Arc::clone(&sh);
+    let it = (0..n).map(move |i| {
+        shi.lock().unwrap().created += 1;
+        LGate { i, sh: Arc::clone(&shi) }
+    });
+    let nz = NonZeroUsize::new(w).unwrap();
+    let mut ex = MiniExec::new();
+    let (o2, d2) = (Arc::clone(&out), Arc::clone(&done));
+    let cid = match variant {
+        Variant::Join => {
+            let mut st = seq_join(nz, futures::stream::iter(it));
+            ex.spawn(async move {
+                while let Some(v) = st.next().await {
+                    o2.lock().unwrap().push(v.unwrap());
+                }
+                *d2.lock().unwrap() = true;
+            })
+        }
+        _ => {
+            let fut = seq_try_join_all(nz, it);
+            ex.spawn(async move {
+                let r = fut.await;
+                *o2.lock().unwrap() = r.unwrap();
+                *d2.lock().unwrap() = true;
+            })
+        }
+    };
+    let mut settle = |ex: &mut MiniExec| -> Result<(), String> {
+        let mut k = 0;
+        while !ex.is_done(cid) && !ex.woken().is_empty() {
+            ex.poll(cid);
+            k += 1;
+            if k > 4 * n + 16 {
+                return Err(format!("livelock: more than {} polls of the consumer", 4 * n + 16));
+            }
+        }
+        Ok(())
+    };
+    settle(&mut ex)?;
+    {
+        let s = sh.lock().unwrap();
+        if s.created != w.min(n) {
+            return Err(format!("window: consumer is pending with {} tasks taken from the source, window {w}, {n} tasks available", s.created));
+        }
+        if let Some(i) = (0..s.created).find(|i| !s.polled[*i]) {
+            return Err(format!("task {i} is in flight but was not polled before Pending was returned (window {w})"));
+        }
+    }
+    // complete the last task of the first window only: task 0 waits for exactly that one
+    let first = dep0.unwrap_or(0);
+    let wk = {
+        let mut s = sh.lock().unwrap();
+        s.fired[first] = true;
+        s.wakers[first].take()
+    };
+    if let Some(wk) = wk {
+        wk.wake();
+    }
+    settle(&mut ex)?;
+    if variant == Variant::Join {
+        let got = out.lock().unwrap().clone();
+        let expect: Vec<usize> = if w == 2 { vec![0, 1] } else { vec![0] };
+        if got != expect {
+            return Err(format!("stuck: task 0 waits for task {first} (inside the window of {w}); after completing it the stream has yielded {got:?}, expected {expect:?}"));
+        }
+        let s = sh.lock().unwrap();
+        let in_flight = s.created - got.len();
+        if in_flight != w {
+            return Err(format!("window: {in_flight} tasks in flight after the first result, window {w}"));
+        }
+    }
+    let wks: Vec<Waker> = {
+        let mut s = sh.lock().unwrap();
+        for f in s.fired.iter_mut() {
+            *f = true;
+        }
+        s.wakers.iter_mut().filter_map(Option::take).collect()
+    };
+    for wk in wks {
+        wk.wake();
+    }
+    settle(&mut ex)?;
+    if !*done.lock().unwrap() {
+        return Err(format!("stuck: all {n} tasks completed but the consumer is pending and not woken (window {w})"));
+    }
+    let got = out.lock().unwrap().clone();
+    if got.len() != n || got.iter().enumerate().any(|(i, v)| i != *v) {
+        let bad = got.iter().enumerate().find(|(i, v)| i != *v);
+        return Err(format!("outputs are not the inputs in order: {} results, first mismatch {bad:?} (window {w})", got.len()));
+    }
+    Ok(())
+}
+
+pub fn large_windows() -> Vec<usize> {
+    let mut ws = vec![1, 2, 3, 1000, 10_000, 50_000, 100_000];
+    for k in 5..=17 {
+        ws.extend([(1usize << k) - 1, 1 << k, (1 << k) + 1]);
+    }
+    ws.sort_unstable();
+    ws.dedup();
+    ws
+}
+
 fn cfg_json(c: &Cfg15) -> serde_json::Value {
     json!({"n":c.n,"w":c.w,"variant":format!("{:?}", c.variant),"dep":c.dep.map(|(a,b)| vec![a,b]),"err":c.err,"bound":c.bound,"inexact":c.inexact})
 }
@@ -338,6 +498,15 @@ fn cfg_from(v: &serde_json::Value) -> Cfg15 {
 fn run() {
     let mut r = Report::new("C15");
     if let Some(rep) = common::replay_arg() {
+        if rep["part"] == "large-window" {
+            let variant = if rep["variant"] == "Join" { Variant::Join } else { Variant::TryJoin };
+            r.add("states", 1);
+            if let Err(e) = large_window(rep["w"].as_u64().unwrap() as usize, variant) {
+                r.violation("seq-join:replay", &e, rep.clone());
+            }
+            r.finish();
+            return;
+        }
         let c = cfg_from(&rep["config"]);
         let trace: Vec<u32> = rep["choices"].as_array().unwrap().iter().map(|x| x.as_u64().unwrap() as u32).collect();
         let mut obs = Obs15::default();
@@ -422,6 +591,19 @@ fn run() {
         } else if !st.complete {
             r.flag("exhaustive", false);
             r.note(format!("{c:?}: cap hit after {} executions", st.executions));
+        }
+    }
+    // boundary windows (one execution each, see `large_window`)
+    let lw: Vec<(usize, Variant)> = large_windows().into_iter().flat_map(|w| [(w, Variant::Join), (w, Variant::TryJoin)]).collect();
+    let lres = common::par_map(lw.len(), common::ncpu(), |i| large_window(lw[i].0, lw[i].1));
+    for (i, res) in lres.into_iter().enumerate() {
+        let (w, variant) = lw[i];
+        r.inc("large_window_runs");
+        r.add("states", 1);
+        r.max("largest_window", w as u64);
+        if let Err(e) = res {
+            let kind = if e.starts_with("stuck") { "stuck" } else if e.starts_with("window") { "window" } else { "order" };
+            r.violation(&format!("seq-join:{kind}:{variant:?}:large-w{w}"), &e, json!({"part":"large-window","w":w,"variant":format!("{variant:?}")}));
         }
     }
     r.finish();
